@@ -3,7 +3,10 @@
 An MList is a length term plus one z3 array per scalar component of its elements (elements are
 ints, bools, strings or tuples of these).  append / insert(0, .) / pop / del xs[0] / extend /
 xs[i] = v are functional updates of the arrays; at loop heads the list is havocked in place
-(fresh arrays, fresh length) so that aliases keep seeing the same object."""
+(fresh arrays, fresh length) so that aliases keep seeing the same object.
+
+Element k lives at array index `base + k`: insert(0, .) and del xs[0] / popleft move `base` instead of
+shifting the arrays, so that all updates are plain stores (no lambda terms in the obligations)."""
 try:
     import z3
 except ImportError:
@@ -12,7 +15,7 @@ except ImportError:
 import ast
 
 from .path import Unsupported
-from .values import SInt, SBool, SStr, SOpt, SChoice, SList, Sym, to_z3, wrap
+from .values import SInt, SBool, SStr, SOpt, SChoice, SList, Sym, Opaque, to_z3, wrap
 from . import models
 
 _SORT = {'int': lambda: z3.IntSort(), 'bool': lambda: z3.BoolSort(), 'str': lambda: z3.StringSort(),
@@ -28,18 +31,10 @@ def handle_of(interp, obj):
     if ent is None:
         h = st.fresh_int('handle')
         for (_o, other) in tab.values():
-            st.axiom(h != other)
+            st.assume_unscoped(h != other)
         ent = (obj, h)
         tab[id(obj)] = ent
     return ent[1]
-
-
-def _term(interp, v, kind):
-    if kind == 'obj':
-        if isinstance(v, SInt):       # already a handle (an element read from another list of objects)
-            return v.t
-        return handle_of(interp, v)
-    return to_z3(v)
 
 
 def _kind(v):
@@ -52,79 +47,258 @@ def _kind(v):
     return None
 
 
+def record_shape(iface):
+    """Elements that are objects of an interface all of whose attributes are scalars are stored BY VALUE (one
+    array per attribute); an element read back is an object of the interface with these attribute values
+    (object identity is not preserved)."""
+    from . import api
+    attrs = {}
+    for k in reversed(iface.__mro__):
+        attrs.update(k.__dict__.get('attrs') or {})
+    fields = []
+    for name in sorted(attrs):
+        ty = attrs[name]
+        if isinstance(ty, api._Int):
+            fields.append((name, 'int', ty.lo, ty.hi))
+        elif isinstance(ty, api._Bool):
+            fields.append((name, 'bool', None, None))
+        elif isinstance(ty, api._Str):
+            fields.append((name, 'str', None, None))
+        else:
+            raise Unsupported('symbolic mutable list of %s objects: attribute %r is not a scalar' % (iface.__name__, name))
+    if not fields:
+        raise Unsupported('symbolic mutable list of %s objects: the interface has no scalar attributes' % iface.__name__)
+    return ('rec', iface, tuple(fields))
+
+
 def shape_of_value(v):
+    """Shape of a list element.  Besides scalars and tuples of scalars:
+       ('obj',)                an arbitrary Python object (`MListOf(Any_)`): stored as its integer handle
+                               (`handle_of`); an element read back is the handle -- compare with
+                               `contracts.common.is_item(xs[j], obj)`
+       ('opt', s)              an optional value (SOpt / None) of shape s
+       ('ref', iface, uid, n)  an opaque object that is a function of n integer index terms (an element of a
+                               symbolic sequence of interface objects, a structured result of a pure method):
+                               stored as its index, rebuilt from it
+       ('codec', iface)        an opaque object whose interface says how it is determined by scalars
+                               (`mlist_codec = (kinds, encode(interp, obj), decode(interp, scalars))`)
+       ('inst', cls, fields)   an instance of a plain record class: its attributes, each of a shape"""
+    from .values import Opaque
     if isinstance(v, tuple):
         return ('tuple', tuple(shape_of_value(x) for x in v))
     k = _kind(v)
-    if k is None:
-        if isinstance(v, (Sym, list, dict, set)):
-            raise Unsupported('element of a symbolic mutable list must be int/bool/str, a tuple of these, or an '
-                              'object: %r' % (v,))
-        return ('obj',)
-    return (k,)
+    if k is not None:
+        return (k,)
+    if isinstance(v, SOpt):
+        return ('opt', shape_of_value(v.val))
+    if isinstance(v, Opaque):
+        if v._pv_index:
+            return ('ref', v._pv_iface, v._pv_uid, len(v._pv_index))
+        if getattr(v._pv_iface, 'mlist_codec', None) is not None:
+            return ('codec', v._pv_iface)
+        # an object of an interface all of whose attributes are scalars: stored by value
+        return record_shape(v._pv_iface)
+    d = getattr(v, '__dict__', None)
+    if isinstance(d, dict) and not isinstance(v, (Sym, type)) and v is not None:
+        return ('inst', type(v), tuple((k2, shape_of_value(x)) for k2, x in d.items()))
+    raise Unsupported('element of a symbolic mutable list must be int/bool/str, a tuple, an indexed opaque object '
+                      'or a record of these: %r' % (v,))
+
+
+
+_DEFAULT = {'int': 0, 'bool': False, 'str': ''}
 
 
 def _paths(shape, path=()):
-    if shape[0] == 'tuple':
+    k = shape[0]
+    if k == 'tuple':
         for i, s in enumerate(shape[1]):
             for p in _paths(s, path + (i,)):
                 yield p
+    elif k == 'opt':
+        yield path + ('?',), 'bool'
+        for p in _paths(shape[1], path + ('!',)):
+            yield p
+    elif k == 'ref':
+        for j in range(shape[3]):
+            yield path + (('#', j),), 'int'
+    elif k == 'codec':
+        for j, kind in enumerate(shape[1].mlist_codec[0]):
+            yield path + (('$', j),), kind
+    elif k == 'inst':
+        for name, s in shape[2]:
+            for p in _paths(s, path + (name,)):
+                yield p
+    elif k == 'rec':
+        for f in shape[2]:
+            yield path + (f[0],), f[1]
     else:
-        yield path, shape[0]
+        yield path, k
 
 
-def _leaf(v, path):
-    for i in path:
-        v = v[i]
-    return v
+def _encode(interp, shape, v, path=(), out=None, absent=False):
+    """{leaf path: scalar} of value v of the given shape (absent: the inside of a None -- default scalars)"""
+    from .values import Opaque
+    if out is None:
+        out = {}
+    k = shape[0]
+    if isinstance(v, SChoice):
+        v = interp.resolve(v)
+    if k == 'tuple':
+        for i, s in enumerate(shape[1]):
+            _encode(interp, s, None if absent else v[i], path + (i,), out, absent)
+    elif k == 'opt':
+        if absent or v is None:
+            out[path + ('?',)] = True
+            _encode(interp, shape[1], None, path + ('!',), out, True)
+        elif isinstance(v, SOpt):
+            out[path + ('?',)] = wrap(v.is_none)
+            _encode(interp, shape[1], v.val, path + ('!',), out, False)
+        else:
+            out[path + ('?',)] = False
+            _encode(interp, shape[1], v, path + ('!',), out, False)
+    elif k == 'ref':
+        if not absent and not (isinstance(v, Opaque) and v._pv_uid == shape[2] and len(v._pv_index) == shape[3]):
+            raise Unsupported('symbolic list of %s objects cannot hold %r' % (shape[2], v))
+        for j in range(shape[3]):
+            out[path + (('#', j),)] = 0 if absent else wrap(v._pv_index[j])
+    elif k == 'codec':
+        kinds, enc, _dec = shape[1].mlist_codec
+        vals = [_DEFAULT[kd] for kd in kinds] if absent else enc(interp, v)
+        for j, x in enumerate(vals):
+            out[path + (('$', j),)] = x
+    elif k == 'rec':
+        for (name, kind, lo, hi) in shape[2]:
+            out[path + (name,)] = _DEFAULT[kind] if absent else interp.getattr(v, name)
+    elif k == 'inst':
+        if not absent and type(v) is not shape[1]:
+            raise Unsupported('symbolic list of %s cannot hold %r' % (shape[1].__name__, v))
+        for name, s in shape[2]:
+            _encode(interp, s, None if absent else v.__dict__[name], path + (name,), out, absent)
+    elif k == 'obj':
+        # an arbitrary Python object, stored as its handle (an element read from such a list IS a handle)
+        out[path] = 0 if absent else v if isinstance(v, SInt) else wrap(handle_of(interp, v))
+    else:
+        if absent:
+            out[path] = _DEFAULT[k]
+        else:
+            if isinstance(v, SOpt):
+                v = interp.resolve(v)
+            if _kind(v) != k:
+                raise Unsupported('symbolic list element: expected %s, got %r' % (k, v))
+            out[path] = v
+    return out
+
+
+def _decode(interp, shape, get, path=(), at=None, owner=None):
+    """value of the given shape from its leaves: get(path) -> scalar (at / owner: position term and list, for
+    elements that are interface objects stored by value)"""
+    from .api import new_opaque
+    k = shape[0]
+    if k == 'tuple':
+        return tuple(_decode(interp, s, get, path + (i,), at, owner) for i, s in enumerate(shape[1]))
+    if k == 'opt':
+        isn = get(path + ('?',))
+        if isn is True:
+            return None
+        inner = _decode(interp, shape[1], get, path + ('!',), at, owner)
+        if isn is False:
+            return inner
+        return SOpt(to_z3(isn), inner)
+    if k == 'ref':
+        idx = tuple(to_z3(get(path + (('#', j),))) for j in range(shape[3]))
+        return new_opaque(interp, shape[1], shape[2], index=idx)
+    if k == 'codec':
+        kinds, _enc, dec = shape[1].mlist_codec
+        return dec(interp, [get(path + (('$', j),)) for j in range(len(kinds))])
+    if k == 'rec':
+        preset = {}
+        for (name, kind, lo, hi) in shape[2]:
+            x = get(path + (name,))
+            # well-typedness of the stored objects (only objects of the interface are ever stored)
+            if lo is not None and not isinstance(x, (int, bool)):
+                interp.st.assume(to_z3(x) >= lo)
+            if hi is not None and not isinstance(x, (int, bool)):
+                interp.st.assume(to_z3(x) <= hi)
+            preset[name] = x
+        uid = '%s@v%d%s[]' % (owner.uid if owner is not None else 'rec', owner.version if owner is not None else 0,
+                              ''.join('.%s' % (i,) for i in path))
+        return new_opaque(interp, shape[1], uid, index=(at,) if at is not None else (), preset=preset)
+    if k == 'inst':
+        obj = object.__new__(shape[1])
+        for name, s in shape[2]:
+            object.__setattr__(obj, name, _decode(interp, s, get, path + (name,), at, owner))
+        return obj
+    return get(path)
 
 
 class MList(SList):
-    __slots__ = ('shape', 'arrs', 'hist')
+    __slots__ = ('shape', 'arrs', 'base', 'version', 'is_deque',
+                 'base_empty', 'base_len', 'tail', 'base_measures', 'mversion')
 
     def __init__(self, interp, uid, shape, length=None, fresh=True):
         SList.__init__(self, length if length is not None else z3.IntVal(0), None, uid)
         self.shape = shape
         self.arrs = {}
+        self.base = z3.IntVal(0)
+        self.version = 0
+        self.is_deque = False
         self.immutable = False
-        self.hist = None      # how the list was built, for measures over it (strings.join_term)
         self.elem = self._elem
+        # measures (left folds, see pyvc.api.Measure): the list is `base list` followed by the items of `tail`;
+        # the base list is the empty list (created empty) or an arbitrary list whose measure values are unknown
+        self.base_empty = length is None
+        self.base_len = self.length
+        self.tail = []
+        self.base_measures = {}
+        self.mversion = 0
         if shape is not None:
             self._fresh_arrays(interp, uid)
 
     def _fresh_arrays(self, interp, base):
         for path, kind in _paths(self.shape):
-            name = interp.st.fresh_name('%s%s' % (base, ''.join('.%d' % i for i in path)))
+            name = interp.st.fresh_name('%s%s' % (base, ''.join(
+                '.%s' % (i if not isinstance(i, tuple) else '%s%s' % i) for i in path)))
             self.arrs[path] = z3.Array(name, z3.IntSort(), _SORT[kind]())
 
     def _elem(self, interp, idx):
         if self.shape is None:
             raise Unsupported('element of an empty symbolic list of unknown element shape')
 
-        def load(shape, path):
-            if shape[0] == 'tuple':
-                return tuple(load(s, path + (i,)) for i, s in enumerate(shape[1]))
-            return wrap(z3.Select(self.arrs[path], idx))
-
-        return load(self.shape, ())
+        at = z3.simplify(self.base + idx)
+        return _decode(interp, self.shape, lambda path: wrap(z3.Select(self.arrs[path], at)), (), at, self)
 
     def _ensure_shape(self, interp, v):
-        sh = shape_of_value(v)
-        if self.shape == ('obj',) and sh == ('int',) and isinstance(v, SInt):
-            return      # a handle
         if self.shape is None:
-            self.shape = sh
+            self.shape = shape_of_value(v)
             self._fresh_arrays(interp, self.uid)
-        elif self.shape != sh:
-            raise Unsupported('symbolic list holds elements of different shapes: %r / %r' % (self.shape, sh))
+            return
+        # declared composite shapes (opt / ref / codec / inst / rec) accept what _encode accepts; plain
+        # scalar / tuple shapes are compared with the shape of the value
+        if self.shape[0] in ('int', 'bool', 'str', 'tuple') and not any(
+                k in repr(self.shape) for k in ("'opt'", "'ref'", "'codec'", "'inst'", "'rec'")):
+            sh = shape_of_value(v)
+            if self.shape != sh:
+                raise Unsupported('symbolic list holds elements of different shapes: %r / %r' % (self.shape, sh))
 
     # ---- mutation -------------------------------------------------------------
+    def new_base(self):
+        """the contents changed in a way measures do not follow: their values become unknown"""
+        self.base_empty = False
+        self.base_len = self.length
+        self.tail = []
+        self.base_measures = {}
+        self.mversion += 1
+
     def havoc(self, interp, tag):
         self.cache = {}
-        self.hist = None
+        self.aux = {}          # measures (pyvc.texts) describe the old contents
+        self.version += 1
         n = interp.st.fresh_int('%s.len@%s' % (self.uid, tag))
         interp.st.assume(n >= 0)
         self.length = n
+        self.base = z3.IntVal(0)
+        self.new_base()
         if self.shape is not None:
             self.arrs = {}
             self._fresh_arrays(interp, '%s@%s' % (self.uid, tag))
@@ -134,23 +308,55 @@ class MList(SList):
             v = interp.resolve(v)
         self._ensure_shape(interp, v)
         self.cache = {}
-        if self.shape == ('str',):
-            self.hist = ('append', self.arrs[()], self.length, v, self.hist)
+        n = self.length
+        self.version += 1
+        at = z3.simplify(self.base + self.length)
+        _enc = _encode(interp, self.shape, v)
         for path, kind in _paths(self.shape):
-            self.arrs[path] = z3.Store(self.arrs[path], self.length, _term(interp, _leaf(v, path), kind))
+            self.arrs[path] = z3.Store(self.arrs[path], at, to_z3(_enc[path]))
         self.length = z3.simplify(self.length + 1)
+        self.tail.append(v)
 
     def insert(self, interp, pos, v):
+        self.aux = {}
         if not (isinstance(pos, int) and pos == 0):
             raise Unsupported('insert at a position other than 0 in a symbolic list')
-        self.hist = None
         self._ensure_shape(interp, v)
         self.cache = {}
-        k = z3.Int('k!shift')
+        self.version += 1
+        self.base = z3.simplify(self.base - 1)
+        _enc = _encode(interp, self.shape, v)
         for path, kind in _paths(self.shape):
-            a = self.arrs[path]
-            self.arrs[path] = z3.Lambda([k], z3.If(k == 0, _term(interp, _leaf(v, path), kind), z3.Select(a, k - 1)))
+            self.arrs[path] = z3.Store(self.arrs[path], self.base, to_z3(_enc[path]))
         self.length = z3.simplify(self.length + 1)
+        self.new_base()
+        self._rebase(interp)
+
+    def _rebase(self, interp):
+        """After the front of the list has moved (insert(0, .), del xs[0]): continue with fresh arrays in which
+        element k lives at index k again.  The link to the previous arrays is given by two axioms whose
+        triggers have no arithmetic (`new[j]` resp. `old[j]`), so that a witness index found for one of the
+        two lists is carried over to the other one by E-matching (statements with existential quantifiers over
+        the items of both lists)."""
+        b = z3.simplify(self.base)
+        if z3.is_int_value(b) and b.as_long() == 0:
+            return
+        st = interp.st
+        j = z3.Int('j!rebase')
+        new = {}
+        for path, kind in _paths(self.shape):
+            old = self.arrs[path]
+            suffix = ''.join('.%s' % (i,) for i in path)
+            if not z3.is_const(old):
+                named = z3.Array(st.fresh_name('%s@v%d%s' % (self.uid, self.version, suffix)), z3.IntSort(), _SORT[kind]())
+                st._add(named == old)
+                old = named
+            arr = z3.Array(st.fresh_name('%s@r%d%s' % (self.uid, self.version, suffix)), z3.IntSort(), _SORT[kind]())
+            st._add(z3.ForAll([j], z3.Select(arr, j) == z3.Select(old, j + b), patterns=[z3.Select(arr, j)]))
+            st._add(z3.ForAll([j], z3.Select(arr, j - b) == z3.Select(old, j), patterns=[z3.Select(old, j)]))
+            new[path] = arr
+        self.arrs = new
+        self.base = z3.IntVal(0)
 
     def pop(self, interp, pos=-1):
         st = interp.st
@@ -159,10 +365,10 @@ class MList(SList):
             raise PyRaise(IndexError('pop from empty list'))
         if isinstance(pos, int) and pos == -1:
             v = self._elem(interp, z3.simplify(self.length - 1))
-            if self.shape == ('str',):
-                self.hist = ('poplast', self.arrs[()], self.length, self.hist)
             self.length = z3.simplify(self.length - 1)
             self.cache = {}
+            self.version += 1
+            self.new_base()
             return v
         if isinstance(pos, int) and pos == 0:
             v = self._elem(interp, z3.IntVal(0))
@@ -171,42 +377,50 @@ class MList(SList):
         raise Unsupported('pop at a symbolic position')
 
     def delete_first(self, interp):
-        self.hist = None
-        k = z3.Int('k!shift')
+        self.aux = {}
         self.cache = {}
-        for path, kind in _paths(self.shape):
-            a = self.arrs[path]
-            self.arrs[path] = z3.Lambda([k], z3.Select(a, k + 1))
+        self.version += 1
+        self.base = z3.simplify(self.base + 1)
         self.length = z3.simplify(self.length - 1)
+        self.new_base()
+        self._rebase(interp)
 
     def extend(self, interp, other):
+        self.aux = {}
         if isinstance(other, (list, tuple)):
             for x in other:
                 self.append(interp, x)
             return
         if isinstance(other, SList):
-            self.hist = None
             if other.length is self.length and other is self:
                 raise Unsupported('extend with itself')
             if self.shape is None:
                 if isinstance(other, MList) and other.shape is not None:
                     self.shape = other.shape
-                    self._fresh_arrays(interp, self.uid)
                 else:
-                    raise Unsupported('extend of an empty list of unknown shape')
+                    # shape of a generic element of the other sequence
+                    probe = interp.st.fresh_int('k!shape')
+                    with interp.st.scope(z3.And(probe >= 0, probe < other.length)):
+                        self.shape = shape_of_value(models.slist_elem(interp, other, probe))
+                self._fresh_arrays(interp, self.uid)
             k = z3.Int('k!ext')
             n = self.length
-            sample = models.slist_elem(interp, other, k - n)
+            end = z3.simplify(self.base + n)
+            sample = models.slist_elem(interp, other, k - end)
+            _enc = _encode(interp, self.shape, sample)
             for path, kind in _paths(self.shape):
                 a = self.arrs[path]
-                self.arrs[path] = z3.Lambda([k], z3.If(k < n, z3.Select(a, k), _term(interp, _leaf(sample, path), kind)))
+                self.arrs[path] = z3.Lambda([k], z3.If(k < end, z3.Select(a, k), to_z3(_enc[path])))
             self.length = z3.simplify(n + other.length)
             self.cache = {}
+            self.version += 1
+            self.new_base()
             return
         for x in interp.iterate(other):
             self.append(interp, x)
 
     def setitem(self, interp, idx, v):
+        self.aux = {}
         st = interp.st
         t = to_z3(idx)
         if not st.fork(wrap(z3.And(t >= 0, t < self.length))):
@@ -217,27 +431,37 @@ class MList(SList):
                 raise PyRaise(IndexError('list assignment index out of range'))
         self._ensure_shape(interp, v)
         self.cache = {}
-        self.hist = None
+        self.version += 1
+        at = z3.simplify(self.base + t)
+        _enc = _encode(interp, self.shape, v)
         for path, kind in _paths(self.shape):
-            self.arrs[path] = z3.Store(self.arrs[path], t, _term(interp, _leaf(v, path), kind))
+            self.arrs[path] = z3.Store(self.arrs[path], at, to_z3(_enc[path]))
+        self.new_base()
 
     def copy(self, interp):
         c = MList(interp, interp.st.fresh_name(self.uid + '.copy'), None, self.length)
         c.shape = self.shape
         c.arrs = dict(self.arrs)
-        c.hist = self.hist
+        c.aux = dict(self.aux)
+        c.base = self.base
+        c.is_deque = self.is_deque
+        c.base_empty, c.base_len, c.tail = self.base_empty, self.base_len, list(self.tail)
+        c.base_measures = self.base_measures      # shared: same base list, same (lazily created) values
+        c.mversion = self.mversion
         return c
 
 
 def method(interp, xs, name, args, kwargs):
-    if interp.loop_guards and name in ('append', 'insert', 'pop', 'extend', 'clear'):
-        interp.note_heap_write(xs, None)
     if name == 'append':
         return xs.append(interp, args[0])
     if name == 'insert':
         return xs.insert(interp, args[0], args[1])
     if name == 'pop':
         return xs.pop(interp, *args)
+    if name == 'popleft' and xs.is_deque:
+        return xs.pop(interp, 0)
+    if name == 'appendleft' and xs.is_deque:
+        return xs.insert(interp, 0, args[0])
     if name == 'extend':
         return xs.extend(interp, args[0])
     if name == 'copy':
@@ -245,7 +469,10 @@ def method(interp, xs, name, args, kwargs):
     if name == 'clear':
         xs.length = z3.IntVal(0)
         xs.cache = {}
-        xs.hist = None
+        xs.aux = {}
+        xs.version += 1
+        xs.new_base()
+        xs.base_empty = True
         return None
     return None
 
@@ -255,3 +482,81 @@ def from_concrete(interp, values, uid='list'):
     for v in values:
         m.append(interp, v)
     return m
+
+
+# ------------------------------------------------------------------------------ measures (left folds)
+
+def _param_key(params):
+    out = []
+    for a in params:
+        if isinstance(a, (Sym, int, str, bool)) and not isinstance(a, (SOpt, SChoice, SList)):
+            out.append(z3.simplify(to_z3(a)).sexpr())
+        else:
+            out.append('id%d' % id(a))
+    return tuple(out)
+
+
+def apply_measure(interp, m, args):
+    """h(xs, *params) for a pyvc.api.Measure h:  h([]) == init,  h(xs + [x]) == step(h(xs), x, *params).
+    On a list built by the code the fold is computed; on a symbolic mutable list it is computed from the
+    (unknown, but fixed) value on the list as it was at the last havoc and the items appended since."""
+    if not args:
+        raise Unsupported('measure %s called without a list' % m.name)
+    xs = args[0]
+    params = list(args[1:])
+    if isinstance(xs, (SOpt, SChoice)):
+        xs = interp.resolve(xs)
+    if isinstance(xs, (list, tuple)):
+        acc = m.init
+        for x in xs:
+            acc = interp.call(m.step, [acc, x] + params, {})
+        return acc
+    if isinstance(xs, MList):
+        if xs.base_empty:
+            acc = m.init
+        else:
+            key = (m.name, _param_key(params))
+            if key not in xs.base_measures:
+                v = m.shape.make(interp, '%s(%s#%d)' % (m.name, xs.uid, xs.mversion))
+                xs.base_measures[key] = v
+                # the fold of the empty list is `init`
+                e = interp.truth(interp.eq(v, m.init))
+                interp.st._add(z3.Implies(xs.base_len == 0, to_z3(e)))      # valid in every merge scope
+            acc = xs.base_measures[key]
+        for x in xs.tail:
+            acc = interp.call(m.step, [acc, x] + params, {})
+        return acc
+    raise Unsupported('measure %s of %r (only lists built by the code and MListOf lists)' % (m.name, type(xs).__name__))
+
+
+def join(interp, sep, xs):
+    """sep.join(xs) for a symbolic mutable list of strings: a left fold like a measure"""
+    st = interp.st
+    if xs.shape is not None and xs.shape != ('str',):
+        from .interp import PyRaise
+        raise PyRaise(TypeError('sequence item: expected str instance'))
+    sep_t = to_z3(sep)
+    if xs.base_empty:
+        acc = z3.StringVal('')
+        empty = z3.BoolVal(True)
+    else:
+        key = ('str.join', _param_key([sep]))
+        if key not in xs.base_measures:
+            j = st.fresh_str('join(%s#%d)' % (xs.uid, xs.mversion))
+            st._add(z3.Implies(xs.base_len == 0, j == z3.StringVal('')))
+            xs.base_measures[key] = j
+        acc = xs.base_measures[key]
+        empty = xs.base_len == 0
+        if xs.tail and st.must_hold_lengths(xs.base_len >= 1):
+            empty = z3.BoolVal(False)      # (known by arithmetic: no case distinction in the term)
+    from . import strings
+    for x in xs.tail:
+        if isinstance(sep, str) and sep == '':
+            # no separator: the measure of an empty list is '' and '' + x == x, no case distinction needed
+            acc = to_z3(strings.concat(interp, wrap(acc), x))
+            empty = z3.BoolVal(False)
+            continue
+        with_sep = strings.concat(interp, strings.concat(interp, wrap(acc), sep), x)
+        acc = z3.simplify(z3.If(empty, to_z3(x), to_z3(with_sep)))
+        empty = z3.BoolVal(False)
+    return wrap(acc)
